@@ -86,6 +86,15 @@ CHECKS = {
         "jobs": [rapid("codec", "TestC18FixedPoint", 6000, 40000), rapid("codec", "TestC18Mutants", 6000, 40000)],
         "assumptions": ["rejected inputs create no obligation"],
     },
+    "C20": {
+        "level": "exploration",
+        "technique": "property-based testing (rapid) over work lists and schedules, differential between fresh child processes (sequential reference vs concurrent cold start vs reused encoders), race detector on the concurrent child",
+        "level_text": "Generated-history exploration: each case is a work list of encode/decode jobs of mixed versions, types and encodings plus a schedule (goroutine count, start permutation, history prefix); three fresh processes execute it - sequentially, concurrently from a cold start (so the lazily built per-type plans are constructed under contention), and on reused cleared encoders in another order - and every job's digest over all four encodings and the text round trips must be identical. A race-built variant of the same test fails on any data race report.",
+        "level_note": "Interleavings are explored by real concurrent execution from cold starts (the scheduler is not controlled); the race detector only sees races that occur in the executions run.",
+        "jobs": [rapid("codec", "TestC20History", 120, 600, shards=8),
+                 dict(rapid("codec", "TestC20History", 4, 20, shards=4), race="always", timeout_s={"quick": 600, "thorough": 1500})],
+        "assumptions": ["children inherit the same environment (time zone), so date formatting is identical"],
+    },
     "C03": {
         "level": "exploration",
         "technique": "property-based testing (rapid): differential against an independent TTLV codec, both directions",
